@@ -63,6 +63,12 @@ def _run(want, env_prefix):
                 t = time.time()
                 rc, out = sh(f"{env_prefix}./check {chk} --tier quick", cwd=ROOT)
                 res[chk] = {"exit": rc, "wall_s": round(time.time() - t)}
+                if rc != 1:   # keep the tail of an unexpected run, and try once more (flakiness must be visible, not hidden)
+                    res[chk]["first_attempt_tail"] = [l[:300] for l in out.splitlines() if "INCOMPLETE" in l or "ERROR" in l or "VACUOUS" in l][:5]
+                    rc2, out2 = sh(f"{env_prefix}./check {chk} --tier quick", cwd=ROOT)
+                    res[chk]["second_attempt_exit"] = rc2
+                    if rc2 == 1:
+                        res[chk]["exit"] = 1
         finally:
             sh(f"git -C {TREE} checkout -- . && git -C {TREE} clean -fdq src")
         d["regression"] = res
